@@ -40,8 +40,8 @@ PROPS["C02"] = dict(
 
 PROPS["C03"] = dict(
     level="proof",
-    verus=["c02_dispatch", "c03_parse_mask", "c03_apply_options", "c03_option_text", "c03_check_options", "c05_optimizer", "c06_matches"],
-    labels=["C03.", "C05.select."] + MASK,
+    verus=["c02_dispatch", "c03_parse_mask", "c03_apply_options", "c03_option_text", "c03_check_options", "c05_optimizer", "c06_matches", "c04_precedence"],
+    labels=["C03.", "C05.select.", "C04.check.unsupported"] + MASK,
     kani=[KaniSet("src/filters/network_matchers.rs", "c03_options.rs", [
         Harness("c03_options_nodomain", "C03.options.nodomain", "C", "full domain: 2^32 masks x 17 request types x scheme x party; loop-free"),
         Harness("c03_type_bit", "C03.type_bit", "C", "all 17 request types"),
@@ -202,14 +202,15 @@ PROPS["C05"] = dict(
 
 PROPS["C12"] = dict(
     level="proof",
-    verus=["c12_request", "c12_userinfo"],
-    labels=["C12.", "C03.request."],
+    verus=["c12_request", "c12_userinfo", "c12_domain", "c04_precedence"],
+    labels=["C12.", "C03.request.", "C04.check.unsupported"],
     kani=[KaniSet("src/request.rs", "c03_request.rs", [
         Harness("c03_request_classify", "C03.request.classify", "C", "every (type alias, scheme, party) of the 24-entry alias table x 9 schemes; string loops bounded by the longest literal (unwind 20, unwinding assertions on)"),
     ])],
     trusted=["url_parser: scheme scan, serialisation, port/IPv6 handling, IDN/punycode, registrable-domain lookup (addr/PSL) - NOT under contract; under contract (unit c12_userinfo): where the userinfo ends (Parser::parse_userinfo) and where the host ends (the scanning loop of Parser::parse_host, R7 block lift)",
              "the `Input` character iterator (a wrapper around str::Chars) is a trusted abstraction: next() yields the characters in order, clone() forks the position, next_utf8() also skips tab/newline; str::chars() materialised (R5); what is written to the serialisation buffer is not part of the contract",
              "inputs of fewer than 2^31 characters (parse_userinfo counts in i32) and fewer than usize::MAX/4 characters (byte counter of parse_host)",
+             "registrable domain (unit c12_domain, DefaultResolver::get_host_domain): the public-suffix lookup of the addr crate is uninterpreted (a parsed name reports a root and a suffix that are texts at the end of the host); `x.unwrap_or_else(|| y)` with a pure closure rewritten to a match (R6)",
              "memchr::memchr = first occurrence (shim)"],
     assumptions=[],
     level_text="Verus proves the plumbing of Request::new and Request::preparsed: hostname = host of the parsed URL, third-party iff the registrable domains differ or the source is absent/unparseable, "
@@ -220,8 +221,8 @@ PROPS["C12"] = dict(
 
 PROPS["C16"] = dict(
     level="proof",
-    verus=["c16_labels", "c16_resources", "c16_store", "c16_engine"],
-    labels=["C16.", "C18.resources."],
+    verus=["c16_labels", "c16_resources", "c16_store", "c16_engine", "c12_domain"],
+    labels=["C16.", "C18.resources.", "C12.domain."],
     kani=[],
     trusted=["memchr/memrchr (shims)", "seahash uninterpreted",
              "the parse of the location list (CosmeticFilter::parse) is NOT under contract; add_generic_filter is under contract in unit c17_generic (uninterpreted relation here); the generichide lookup for the page (Engine::url_cosmetic_resources, Blocker::check_generic_hide) is under contract in unit c16_engine with Request::new, NetworkFilterList::check and hostname_cosmetic_resources entering by their contracts",
